@@ -314,6 +314,22 @@ theorem step_older (o : Ops) (s : MSt) (e : MEv) (s' : MSt) (h : mstep o s e = .
     rw [← h]
     have := track_older s.c p u
     simp [older, this.1, this.2]
+  | cref r =>
+    simp only [mstep] at h
+    split at h
+    · injection h with h
+      refine ⟨[], ?_⟩
+      rw [← h]
+      unfold handleData
+      split <;> simp
+    · cases h
+  | eref r =>
+    simp only [mstep] at h
+    injection h with h
+    refine ⟨[], ?_⟩
+    rw [← h]
+    unfold handleData
+    split <;> simp
 
 /-- lifted to every event sequence -/
 theorem run_older (o : Ops) (evs : List MEv) : ∀ s s', mrun o s evs = .ok s' → ∃ pre, older s'.c = pre ++ older s.c := by
